@@ -94,7 +94,7 @@ CHECKS = {
              "order; only images whose creation succeeds are judged; the validator checks exactly the invariants the property lists (size = announced = space size, "
              "descriptors, both-endian fields, record length/straddle, ./../child links, L=M path tables complete and pointing right, extents inside/disjoint, zero "
              "padding, PS3 sectors 0/1). non-trivial = directory records exceed one sector, or a name >= 64 characters, or non-ASCII, or > 100 directories, or colliding "
-             "names; distinct by (route, mode, order seed, tree shape). The terminator descriptor's version is checked like the others'. Unit too-many-dirs: a synthetic tree of 65 794 directories must be refused (or have complete path tables)",
+             "names; distinct by (route, mode, order seed, tree shape). The terminator descriptor's version is checked like the others'. Unit too-many-dirs: a synthetic tree of 65 794 directories must be refused (or have complete path tables). Also counted: a volume whose primary or Joliet path table fills its last sector exactly (directory names constructed for it).",
         assumptions=["the validator's clauses are those of DESIGN Appendix D, each with a negative self-test (TestIsoreadNegative)",
                      "ECMA-119 requirements the property does not name (;1 suffix, record sort order, d-character sets) are not checked"],
         units=[
@@ -126,7 +126,7 @@ CHECKS = {
              "sizes, mtimes, hashes) of the root must be identical afterwards; enabled: each WRITE reply equals the chunk length and the file grew by exactly the payload, "
              "CREATE truncates/creates, DELETE/MKDIR/RMDIR are truthful and change nothing but their target, virtual-image paths are never creatable. unit bin: the same gate "
              "on the real binary with writing enabled by flag, environment, --config INI and ./config.ini. non-trivial = mutating request after a state-changing non-mutating "
-             "one, or an upload with >= 2 chunks or a chunk > 64 KiB, or CREATE of an existing file; distinct by (write mode, transport, request list). Unit huge: one WRITE_FILE of 2^31 bytes (thorough: also 2^31-1 and 2^32-1) - refused with nothing written, or acknowledged with its exact count",
+             "one, or an upload with >= 2 chunks or a chunk > 64 KiB, or CREATE of an existing file; distinct by (write mode, transport, request list). Unit huge: one WRITE_FILE of 2^31 bytes (thorough: also 2^31-1 and 2^32-1) - refused with nothing written, or acknowledged with its exact count. Also counted: DELETE/RMDIR aimed at a symbolic link (to a directory, to a file, to nothing).",
         assumptions=[INPROC, "mutations of a path that is currently open on the same connection make later effects unobservable to the model (counted as don't-care)"],
         units=[
             dict(test="TestC05Sessions", unit="sessions", kind="rapid", checks=(1600, 40000), shards=(8, 16)),
@@ -143,7 +143,7 @@ CHECKS = {
              "model keeps the set of not-yet-reported names per open directory: each reported entry must be in it with true name, kind, size (0 for directories), mtime, "
              "ctime and atime (window between open and report; masked in pipelined bursts), dangling links must never be reported, the end marker / bulk listing must "
              "come exactly when every resolvable entry was reported, an exhausted handle lists nothing. non-trivial = a directory with >= 2 entries enumerated with >= 2 "
-             "entry-by-entry calls, or STAT/DIR_SIZE of a non-root path; distinct by (directory shape, path). Trees may contain links leading back to the directory itself or an ancestor, and a real directory named like a virtual-image prefix; dir-size truth follows links entering every real directory once (or counts regular files proper; the every-path reading only where no cycle exists)",
+             "entry-by-entry calls, or STAT/DIR_SIZE of a non-root path; distinct by (directory shape, path). Trees may contain links leading back to the directory itself or an ancestor, and a real directory named like a virtual-image prefix; dir-size truth follows links entering every real directory once (or counts regular files proper; the every-path reading only where no cycle exists). Also counted: a history in which the directory held open is replaced (by another directory or by a file) or removed behind the server and opened again on the same connection.",
         assumptions=[INPROC, "subtrees with symlink cycles are not generated for DIR_SIZE; a sum following links and a sum of regular files proper are both accepted"],
         units=[
             dict(test="TestC06Listing", unit="listing", kind="rapid", checks=(1200, 24000), shards=(8, 16)),
@@ -162,7 +162,7 @@ CHECKS = {
              "recursive snapshot of everything outside the root must be identical before/after; for read-only sessions the reply stream must be byte-identical when the "
              "outside is emptied. unit bin: the same on the real binary with the root spelled absolute / relative / default '.' / './x/' / trailing slash / via 'dir/../x' (as written) / via 'link/../x' with link a symlink (the system's resolution decides). non-trivial = "
              "path that leaves the root lexically, or carries NUL / over-long / doubled-separator / virtual-prefix / prefix-sibling segments; distinct by (opcode, shape, write "
-             "mode, target+spelling, path). 1/6 of the write-enabled cases serve an empty root and aim RMDIR/DELETE/CREATE/MKDIR at paths that clamp to '/'; the root's own entry in its parent directory must stay the same directory (by identity)",
+             "mode, target+spelling, path). 1/6 of the write-enabled cases serve an empty root and aim RMDIR/DELETE/CREATE/MKDIR at paths that clamp to '/'; the root's own entry in its parent directory must stay the same directory (by identity). Also counted: a path longer than PATH_MAX as sent that is short once cleaned (stretched with './', doubled separators, 'x/../').",
         assumptions=[INPROC + " (unit bin runs the real binary)", "symlinks inside the root are followed by design and are not generated here"],
         units=[
             dict(test="TestC01Inproc", unit="inproc", kind="rapid", checks=(2400, 60000), shards=(8, 16)),
